@@ -1,7 +1,7 @@
-from kernel.term import Term, BoolType, Not, Var, true, false, And
+from kernel.term import Term, BoolType, Not, Var, true, false, And, Or, Eq
 from logic.conv import Conv, rewr_conv, arg1_conv, arg_conv, binop_conv, try_conv, top_conv, bottom_conv, top_sweep_conv
 from kernel.proofterm import refl, ProofTerm
-from logic.logic import apply_theorem
+from logic.logic import apply_theorem, strip_conj, strip_disj, imp_conj_iff, imp_disj_iff
 from logic import matcher
 from kernel import term_ord
 from logic import basic
@@ -61,6 +61,19 @@ class norm_conj_atom(Conv):
         elif t.arg == false:
             return pt.on_rhs(rewr_conv('conj_false_left'))
         elif t.arg.is_conj():
+            # The negation of A may occur anywhere in A_1 /\ ... /\ A_n (the order
+            # is by size first, so A and ~A are in general not adjacent).
+            neg = t.arg1.arg if t.arg1.is_not() else Not(t.arg1)
+            members = strip_conj(t.arg)
+            if neg in members[1:]:
+                rest = [m for m in members if m != neg]
+                pt = pt.transitive(imp_conj_iff(Eq(t, And(t.arg1, neg, *rest))))
+                th_name = 'conj_neg_pos' if t.arg1.is_not() else 'conj_pos_neg'
+                if rest:
+                    return pt.on_rhs(rewr_conv('conj_assoc'), arg1_conv(rewr_conv(th_name)),
+                                     rewr_conv('conj_false_right'))
+                else:
+                    return pt.on_rhs(rewr_conv(th_name))
             if t.arg1 == Not(t.arg.arg1): # A /\ (A_1 /\ ... /\ A_n) 
                 return pt.on_rhs(rewr_conv('conj_assoc'), 
                                 arg1_conv(rewr_conv('conj_neg_pos')),
@@ -129,6 +142,19 @@ class norm_disj_atom(Conv):
         elif t.arg == false:
             return pt.on_rhs(rewr_conv('disj_false_right'))
         elif t.arg.is_disj():
+            # The negation of A may occur anywhere in A_1 \/ ... \/ A_n (the order
+            # is by size first, so A and ~A are in general not adjacent).
+            neg = t.arg1.arg if t.arg1.is_not() else Not(t.arg1)
+            members = strip_disj(t.arg)
+            if neg in members[1:]:
+                rest = [m for m in members if m != neg]
+                pt = pt.transitive(imp_disj_iff(Eq(t, Or(t.arg1, neg, *rest))))
+                th_name = 'disj_neg_pos' if t.arg1.is_not() else 'disj_pos_neg'
+                if rest:
+                    return pt.on_rhs(rewr_conv('disj_assoc_eq'), arg1_conv(rewr_conv(th_name)),
+                                     rewr_conv('disj_true_left'))
+                else:
+                    return pt.on_rhs(rewr_conv(th_name))
             if t.arg1 == Not(t.arg.arg1): # A \/ (A_1 \/ ... \/ A_n) 
                 return pt.on_rhs(rewr_conv('disj_assoc_eq'), 
                                 arg1_conv(rewr_conv('disj_neg_pos')),
@@ -140,13 +166,17 @@ class norm_disj_atom(Conv):
             
             cp = term_ord.fast_compare(t.arg1, t.arg.arg1)
             if cp > 0:
-                return pt.on_rhs(swap_disj_r(), arg_conv(self))
+                return pt.on_rhs(swap_disj_r(), arg_conv(self), try_conv(self))
             elif cp == 0:
                 return pt.on_rhs(rewr_conv('disj_assoc_eq'), 
                                 arg1_conv(rewr_conv('disj_same_atom')))
             else:
                 return pt
         else:
+            if t.arg == Not(t.arg1):
+                return pt.on_rhs(rewr_conv('disj_pos_neg'))
+            elif t.arg1 == Not(t.arg):
+                return pt.on_rhs(rewr_conv('disj_neg_pos'))
             cp = term_ord.fast_compare(t.arg1, t.arg)
             if cp > 0:
                 return pt.on_rhs(swap_disj_r())
